@@ -326,7 +326,8 @@ SEQ_RULES = {
     "C10": "case = generated history with statistics, allocator-reported live bytes and canonical radix-tree model "
            "compared after every mutating operation plus sorted-reload metamorphic checks; non-trivial = >=1 "
            "structural transition and the history revisits a key set reached earlier by a different route; distinct "
-           "by hash of the history text",
+           "by hash of the history text; plus a concurrent part (see coverage.concurrent_part): olc_db executions "
+           "under the deterministic scheduler checked once all threads have quiesced and drained",
 }
 
 
@@ -442,6 +443,20 @@ def check_seq(pid, tier, seed):
                     f.write(f"# engine: qsbr_fault\n# process died rc={rc}: {' '.join(c)}\n# {err[-1500:]}\n")
                 res.violations.append((dst, f"qsbr_fault crashed rc={rc}: {err[-300:]}"))
         stat_files += [os.path.join(outdir, f"qstats{i}.json") for i in range(NCPU)]
+    conc = None
+    if pid == "C10":
+        # concurrent part: olc_db after drained concurrent phases under the deterministic scheduler
+        olc = build("olc")
+        cdir = os.path.join(outdir, "conc")
+        os.makedirs(cdir)
+        if tier == "quick":
+            cplans = [["--seed", str(seed * 1000 + 700 + i), "--programs", "16", "--dfs-p", "1", "--dfs-cap", "3000",
+                       "--pct", "30", "--rand", "30"] for i in range(NCPU)]
+        else:
+            cplans = [["--seed", str(seed * 1000 + 700 + i), "--programs", "800", "--dfs-p", "2", "--dfs-cap", "20000",
+                       "--pct", "60", "--rand", "60"] for i in range(NCPU)]
+        run_sched_workers(pid, olc, cplans, cdir, res)
+        conc = merge_stats(sched_stats_files(cdir, len(cplans)))
     counters, distinct, samples = merge_stats(stat_files)
     evaluations = counters.get("cases", 0)
     if pid == "C08":
@@ -471,6 +486,19 @@ def check_seq(pid, tier, seed):
         cov["scans_skipped_precondition"] = counters.get("scan_skipped_precondition", 0)
     if pid == "C10":
         cov["histories_revisiting_a_key_set"] = counters.get("cases_revisiting_a_key_set", 0)
+        if conc is not None:
+            cc, cd, cs = conc
+            cov["concurrent_part"] = {
+                "what": "olc_db programs under the deterministic scheduler (same generator as C03); after the drained "
+                        "concurrent phase: node counts == canonical tree of the final key set, reported memory use == "
+                        "bytes held from the allocator, counters never decreased",
+                "executions": cc.get("executions", 0),
+                "programs": cc.get("programs", 0),
+                "distinct_nontrivial_executions (a structural change overlapped another operation)": cd,
+                "structural_changes_under_contention": {k[29:]: v for k, v in cc.items()
+                                                        if k.startswith("transitions_under_contention.")},
+                "sample_program": cs[0] if cs else "",
+            }
     if pid == "C08":
         cov["injected_faults"] = counters.get("faults", 0)
         cov["injected_faults_at_2nd_or_later_allocation"] = counters.get("faults_k2plus", 0)
